@@ -369,7 +369,8 @@ def gen_c03(tier, seed):
         meta["penv"] = penv
         # working directory and program resolution
         gone = kind == 6 and r.random() < 0.35
-        if kind in (4, 5, 6) and not gone:
+        rootcase = kind == 5 and r.random() < 0.25
+        if kind in (4, 5, 6) and not gone and not rootcase:
             # relative program name; a *different* x lives in the requested working directory
             reldir = r.choice(["p", "p/q", "dir with space"])
             wdname = "elsewhere"
@@ -396,6 +397,15 @@ def gen_c03(tier, seed):
             o["progx"] = hx(b"p/x")
             o["wd"] = 1
             meta["cwd_gone"] = 1
+            parts.append(start_tokens(0, o))
+        elif rootcase:
+            # the caller's working directory is "/" (the only one that ends in a slash): program named
+            # relative to it, child in another directory
+            parts += ["N 0"]
+            o["rootrel"] = 1
+            o["wd"] = 1
+            meta["wd_is_child_dir"] = 1
+            meta["root_cwd"] = 1
             parts.append(start_tokens(0, o))
         elif kind == 7:
             # bare name through PATH (parent and child PATH agree: behavior extend, PATH untouched)
@@ -548,6 +558,8 @@ def judge_c03(case, log):
     elif m.get("wd_is_child_dir"):
         if cwd is None or not cwd.endswith("/h0/wd"):
             V(vs, "C03", "wrong-working-directory", "cwd %s, requested .../h0/wd" % cwd)
+    if m.get("root_cwd"):
+        obs["root_cwd_cases"] = obs.get("root_cwd_cases", 0) + 1
     # program resolution
     if "expect_tag" in m:
         if m["kind"] == 7:
